@@ -304,6 +304,16 @@ bool Interp::exec_coll(Interp &I, const Stmt &s)
         I.env[s.dst] = PortVal{out.erased(), PT::Other, "tss"};
         return true;
     }
+    if (s.op == "republish")
+    {
+        // republish <port> <trigger int ts> uid=<u>: the port's reference, published again on every trigger tick
+        PortVal v = I.get(a.at(0));
+        with_shape(v.shape, [&]<typename S>() {
+            auto out = wire<VRepublish<S>>(w, Port<S>{w, v.ref}, I.pi(a.at(1)), uid);
+            I.env[s.dst] = PortVal{out.template as<S>().erased(), v.type, v.shape};
+        });
+        return true;
+    }
     if (s.op == "crecord" && !s.kwi("sparse", 0))
     {
         PortVal v = I.get(a.at(0));
